@@ -286,4 +286,62 @@ Proof.
   rewrite Forall_forall in Hind. exact (Hind _ Hincs).
 Qed.
 
+
+(* ------------------------------------------------------------------ the first line *)
+Definition no_code (A : list chunk) : Prop := forall i text, ~ In (Code i text) A.
+
+Lemma after_trivia_true_no_code A : no_code A -> after_trivia true A = true.
+Proof.
+  induction A as [|c A IH]; intros Hn; [reflexivity|].
+  assert (Hn' : no_code A) by (intros i text Hin; apply (Hn i text); right; exact Hin).
+  destruct c as [s ind e [|t r] | i text]; cbn [after_trivia]; [apply IH; exact Hn' | apply IH; exact Hn'|].
+  exfalso. apply (Hn i text). left. reflexivity.
+Qed.
+
+(* before the first code chunk, a non-empty run that no non-empty run precedes starts where the list starts *)
+Lemma first_run_start A1 : forall q A2 s ind e r m, tiling ts q (A1 ++ Trivia s ind e r :: A2) m ->
+  no_code A1 -> after_trivia false A1 = false -> s = q.
+Proof.
+  induction A1 as [|c A1 IH]; intros q A2 s ind e r m Ht Hn Ha; cbn [app] in Ht.
+  - inversion Ht; subst. reflexivity.
+  - assert (Hn' : no_code A1) by (intros i text Hin; apply (Hn i text); right; exact Hin).
+    destruct c as [s' ind' e' [|t' r'] | i text]; cbn [after_trivia] in Ha.
+    + inversion Ht; subst. change (zlen []) with 0 in *.
+      match goal with H : tiling ts (_ + 0) _ _ |- _ => rewrite Z.add_0_r in H; exact (IH _ _ _ _ _ _ _ H Hn' Ha) end.
+    + rewrite (after_trivia_true_no_code A1 Hn') in Ha. discriminate Ha.
+    + exfalso. apply (Hn i text). left. reflexivity.
+Qed.
+
+Lemma all_sp_chunk W A c : In c A -> forallb is_sp (chunks_text W A) = true -> forallb is_sp (chunk_text W c) = true.
+Proof.
+  intros Hin Hsp. apply in_split in Hin. destruct Hin as (A1 & A2 & ->).
+  change (c :: A2) with ([c] ++ A2) in Hsp. rewrite !chunks_text_app, chunks_text_one, !all_sp_app in Hsp.
+  apply andb_true_iff in Hsp. destruct Hsp as [_ Hsp]. apply andb_true_iff in Hsp. destruct Hsp as [Hsp _]. exact Hsp.
+Qed.
+
+(* a prefix of luafmt's output that is one line of blanks is empty: what begins the first line sits at column 0 *)
+Theorem program_first_line w root e :
+  lua_parse ts = Ok (root, e) -> consumed ts e = true -> writable ts root = true -> codes_tidy ts = true ->
+  exists cs, writer_text (fmt_spaces w) ts (view root) = Ok (chunks_text (fmt_spaces w) cs) /\ codes_of cs = sig_codes ts 0 /\
+    forall A B, cs = A ++ B -> noNL (chunks_text (fmt_spaces w) A) -> forallb is_sp (chunks_text (fmt_spaces w) A) = true ->
+      chunks_text (fmt_spaces w) A = [].
+Proof.
+  intros Hp Hc Hw Ht.
+  destruct (program_chunks ts root e Hp Hc Hw Ht) as (cs & Hcs & Hcodes & Htil & Hsep & Hok & _ & _ & _).
+  exists cs. split; [unfold writer_text; rewrite Hcs; reflexivity|]. split; [exact Hcodes|].
+  intros A B HA Hn Hsp. apply (chunks_first_line w cs A B HA Hok); [|exact Hn | exact Hsp].
+  assert (Hnc : no_code A).
+  { intros i text Hin. pose proof (all_sp_chunk _ _ _ Hin Hsp) as Hs. cbn [chunk_text] in Hs.
+    destruct (Hok i text) as [_ (t' & c & Et & Hc1 & _)]; [rewrite HA; apply in_or_app; left; exact Hin|].
+    rewrite Et, all_sp_app in Hs. apply andb_true_iff in Hs. destruct Hs as [_ Hs]. cbn in Hs. rewrite andb_true_r in Hs.
+    unfold is_sp in Hs. apply Z.eqb_eq in Hs. contradiction. }
+  intros s ind e0 r Hin Hr. apply in_split in Hin. destruct Hin as (A1 & A2 & EA).
+  assert (Hnc1 : no_code A1) by (intros i text Hin; apply (Hnc i text); rewrite EA; apply in_or_app; left; exact Hin).
+  destruct r as [|t r]; [contradiction Hr; reflexivity|].
+  assert (Ha1 : after_trivia false A1 = false).
+  { apply (Hsep A1 s ind e0 t r (A2 ++ B)). rewrite HA, EA, <- app_assoc. reflexivity. }
+  rewrite HA, EA, <- app_assoc in Htil. cbn [app] in Htil.
+  exact (first_run_start A1 0 (A2 ++ B) s ind e0 (t :: r) _ Htil Hnc1 Ha1).
+Qed.
+
 End LD.
